@@ -7,7 +7,10 @@
 // tiny / huge / NaN publishing intervals, empty and 10^4-element arrays, own /
 // foreign / unknown subscription and monitored item ids, unknown nodes,
 // namespace out of range, nil NodeIDs, nil members, writes to the access level
-// / data type attributes, ...), each with an authentication token mode (own
+// / data type attributes, ...), plus burst steps (one cheap request - Publish,
+// Read, Write, CreateSubscription, CreateMonitoredItems - sent 150 times back to
+// back without waiting for the answers: more than the 100 slots of a session's
+// publish queue), each with an authentication token mode (own
 // valid session, null; thorough: also unknown and the other connection's), on
 // one of two client connections. Histories of length 1, then length 2 (thorough:
 // length 3 as far as the budget reaches), simplest first.
@@ -22,6 +25,10 @@
 // and, if they were created with a 1 ms interval and zero lifetime, must have
 // expired; (3) a canary client on its own connection must get a Read
 // answered within the watchdog (40 s quick / 60 s thorough in this check).
+//
+// If the sentinel is not answered within the watchdog and no server goroutine
+// can make progress by itself (all parked or blocked on a channel send / lock:
+// nothing is left that could drain), the canary is asked right away.
 //
 // Violations: the worker process dies (signature: step's service and variant,
 // token mode, top in-repo function of the panic); the canary is not answered
@@ -66,12 +73,16 @@ type c29Variant struct {
 	Svc   string // request type name
 	Name  string // variant name (stable: part of signatures)
 	Rank  int    // simplicity rank (0 simplest)
+	Burst int    // > 1: the step sends the request that many times back to back without waiting for answers
 	build func(c *c29Ctx) ua.Request
 }
 
 func (v c29Variant) String() string { return v.Svc + ":" + v.Name }
 
 const c29Big = 10000
+
+// c29Burst is the length of a burst step: more than the 100 slots of a session's publish queue.
+const c29Burst = 150
 
 // c29Watch bounds every wait of this check. Under heavy machine load a single
 // 10^4-element request can take tens of seconds, so it is two (quick) or three
@@ -350,6 +361,31 @@ func c29Variants(ids []uint16) []c29Variant {
 			add(svc, "url-10000-chars", 4, func(c *c29Ctx) ua.Request { return &ua.GetEndpointsRequest{EndpointURL: strings.Repeat("x", c29Big)} })
 		}
 	}
+	// Burst steps: a cheap request sent c29Burst times back to back on one connection without waiting for the
+	// answers (a pipelining client), then the usual sentinel and canary. Appended after all single-request
+	// variants so that the variant indices of those stay what they were.
+	have := map[string]bool{}
+	for _, tid := range ids {
+		have[typeName(newRequestOfType(tid))] = true
+	}
+	burst := func(svc, name string, rank int, b func(c *c29Ctx) ua.Request) {
+		if have[svc] {
+			vs = append(vs, c29Variant{Svc: svc, Name: fmt.Sprintf("burst%d-%s", c29Burst, name), Rank: rank, Burst: c29Burst, build: b})
+		}
+	}
+	burst("PublishRequest", "no-acks", 2, func(c *c29Ctx) ua.Request { return &ua.PublishRequest{} })
+	burst("ReadRequest", "target-value", 3, func(c *c29Ctx) ua.Request {
+		return &ua.ReadRequest{TimestampsToReturn: ua.TimestampsToReturnBoth, NodesToRead: []*ua.ReadValueID{c29RVID(c.target, ua.AttributeIDValue)}}
+	})
+	burst("WriteRequest", "target-value", 3, func(c *c29Ctx) ua.Request {
+		return &ua.WriteRequest{NodesToWrite: []*ua.WriteValue{{NodeID: c.target, AttributeID: ua.AttributeIDValue, Value: c29DV(int32(5))}}}
+	})
+	burst("CreateSubscriptionRequest", "interval-1h", 3, func(c *c29Ctx) ua.Request {
+		return &ua.CreateSubscriptionRequest{RequestedPublishingInterval: 3600000, RequestedLifetimeCount: 10000, RequestedMaxKeepAliveCount: 1000, PublishingEnabled: true}
+	})
+	burst("CreateMonitoredItemsRequest", "own-sub-target", 3, func(c *c29Ctx) ua.Request {
+		return &ua.CreateMonitoredItemsRequest{SubscriptionID: c.ownSub, TimestampsToReturn: ua.TimestampsToReturnBoth, ItemsToCreate: []*ua.MonitoredItemCreateRequest{c29MonItem(c.target)}}
+	})
 	return vs
 }
 
@@ -371,7 +407,7 @@ type c29Reply struct {
 	Hang      string   `json:"hang,omitempty"`
 	HangWhere string   `json:"hang_where,omitempty"`
 	EngineErr string   `json:"engine_err,omitempty"`
-	Neutral   []bool   `json:"neutral"` // per step: the canonical server state after the step equals the state before it
+	Neutral   []bool   `json:"neutral"`        // per step: the canonical server state after the step equals the state before it
 	Busy      string   `json:"busy,omitempty"` // the server was still working on a step when the watchdog expired
 	Exit      bool     `json:"exit,omitempty"` // the worker abandons its server after this reply (unusable)
 }
@@ -386,6 +422,7 @@ type c29Conn struct {
 	sub     uint32
 	item    uint32
 	dropped bool
+	tainted bool // a Publish request was sent in the last history: the session's publish queue may not be empty
 }
 
 type c29World struct {
@@ -487,7 +524,7 @@ func (w *c29World) equip(c *c29Conn) error {
 
 // reusable: the connection's channel is still registered and its session still exists.
 func (w *c29World) reusable(c *c29Conn) bool {
-	if c == nil || c.dropped || !w.hasChannel(c.local) {
+	if c == nil || c.dropped || c.tainted || !w.hasChannel(c.local) {
 		return false
 	}
 	for _, t := range w.srv.VerifSessionTokens() {
@@ -715,7 +752,11 @@ func (w *c29World) run(j c29Job) (rep c29Reply) {
 		}
 		v := w.variants[st.V]
 		ctx := &c29Ctx{target: w.target, folder: w.folder, ownSub: c.sub, ownItem: c.item, forSub: o.sub, forItem: o.item, url: w.url}
-		req := v.build(ctx)
+		if v.Svc == "PublishRequest" {
+			// queued publish requests outlive the history's cleanup inside the session objects: these sessions
+			// are not reused, so every history starts with empty publish queues
+			c.tainted, o.tainted = true, true
+		}
 		var tok *ua.NodeID
 		switch st.Tok {
 		case "valid":
@@ -734,7 +775,17 @@ func (w *c29World) run(j c29Job) (rep c29Reply) {
 			}()
 			sctx, cancel := context.WithTimeout(context.Background(), c29Watch)
 			defer cancel()
-			return c.sc.SendRequestWithTimeout(sctx, req, tok, c29Watch, nil) // do not wait for the answer: the sentinel is the barrier
+			n := 1
+			if v.Burst > 1 {
+				n = v.Burst
+			}
+			for k := 0; k < n; k++ {
+				// do not wait for the answer: the sentinel is the barrier
+				if err := c.sc.SendRequestWithTimeout(sctx, v.build(ctx), tok, c29Watch, nil); err != nil {
+					return err
+				}
+			}
+			return nil
 		}()
 		if err != nil {
 			rep.Steps = append(rep.Steps, "not-sent:"+c30Norm(err.Error()))
@@ -778,22 +829,44 @@ func (w *c29World) run(j c29Job) (rep c29Reply) {
 			c.dropped = true
 		}
 		rep.Steps = append(rep.Steps, outcome)
-		// settle: background goroutines of the step, tickers of new subscriptions
-		dl := time.Now().Add(c29Watch)
-		for !w.subsSettled() && time.Now().Before(dl) {
-			time.Sleep(200 * time.Microsecond)
+		// The sentinel was not answered within the watchdog. If no goroutine of the server can make progress by
+		// itself (each is parked waiting for input or blocked on a channel send / lock, at least one is
+		// blocked), there is no backlog that could still drain: the server is wedged, not busy, and the
+		// canary decides right away whether other clients are still served.
+		wedged, wedgedWhy := false, ""
+		if outcome == "stalled" {
+			wedged, wedgedWhy = serverWedged()
 		}
-		ok, why := waitQuiescent()
-		for tries := 0; !ok && tries < 2; tries++ { // waitQuiescent waits one watchdog; allow c29Watch in total
+		ok, why := false, wedgedWhy
+		if !wedged {
+			// settle: background goroutines of the step, tickers of new subscriptions
+			dl := time.Now().Add(c29Watch)
+			for !w.subsSettled() && time.Now().Before(dl) {
+				time.Sleep(200 * time.Microsecond)
+			}
 			ok, why = waitQuiescent()
+			for tries := 0; !ok && tries < 2; tries++ { // waitQuiescent waits one watchdog; allow c29Watch in total
+				ok, why = waitQuiescent()
+			}
+			if !ok {
+				wedged, wedgedWhy = serverWedged()
+			}
 		}
 		if !ok || !w.subsSettled() || outcome == "stalled" {
+			rep.Steps[len(rep.Steps)-1] += "+not-quiescent"
+			if wedged {
+				if err := w.canaryRead(); err != nil {
+					rep.Hang = fmt.Sprintf("no server goroutine can make progress after step %d (%s; sentinel %s) and the canary read is not answered: %v", si, wedgedWhy, outcome, err)
+					rep.HangWhere = dispatcherWhere()
+					return
+				}
+			}
 			// still working on the step after the watchdog: not a verdict (the canary decides about hangs), but
 			// this server cannot be reused deterministically
-			rep.Steps[len(rep.Steps)-1] += "+not-quiescent"
 			rep.Busy = "server still busy " + c29Watch.String() + " after the step (sentinel " + outcome + "): " + why
-			// The canary's verdict would now depend on how fast the backlog drains (machine load), so it
-			// is not taken: a hang is only called when the server is quiescent and still does not answer.
+			// While server goroutines are running, the canary's verdict would depend on how fast the backlog
+			// drains (machine load), so it is not taken: a hang is only called when the server is quiescent
+			// or wedged and still does not answer.
 			return
 		}
 		after := w.state()
@@ -1120,9 +1193,9 @@ func c29() {
 		r.Set("busy_histories_first_40", m)
 	}
 	r.Set("worker_processes_started", p.Started)
-	r.Rule(fmt.Sprintf("histories over %d operations = %d request variants (every registered request type: filled registry instance, raw registry instance, per-service small-domain variants) x token modes %v, steps on one of two client connections (first step on connection 0); all histories of length 1, then length 2 (thorough: 3) built only from operations that survive alone, simplest first until the time budget; evaluations = histories executed on a real server; non-trivial = every history (each is a distinct request sequence); distinct = the history", len(ops), len(variants), toks))
+	r.Rule(fmt.Sprintf("histories over %d operations = %d request variants (every registered request type: filled registry instance, raw registry instance, per-service small-domain variants; plus 5 burst steps = Publish / Read / Write / CreateSubscription / CreateMonitoredItems sent 150 times back to back without waiting for answers) x token modes %v, steps on one of two client connections (first step on connection 0); all histories of length 1, then length 2 (thorough: 3) built only from operations that survive alone, simplest first until the time budget; evaluations = histories executed on a real server; non-trivial = every history (each is a distinct request sequence); distinct = the history", len(ops), len(variants), toks))
 	r.Assume("a history that kills the server alone is reported once and not extended (its extensions would die the same way)",
-		"state-neutral reduction: a history whose last step left the canonical server state (subscriptions with parameters and queued publishes, monitored items, session tokens, attributes and value of the writable nodes) unchanged is not extended, because h+o then behaves like (h without its last step)+o, a shorter history that was run; state outside that canonical state (sequence numbers, nonces, the monotone item counter) is assumed not to influence crashes or hangs", "every connection starts with an activated session owning one subscription (1 h interval) and one monitored item, so own/foreign ids exist from the first step", "the server is reused between histories after deleting all subscriptions and items and re-creating the two nodes histories can tamper with; it is replaced every 1500 histories and after every death or hang")
+		"state-neutral reduction: a history whose last step left the canonical server state (subscriptions with parameters and queued publishes, monitored items, session tokens, attributes and value of the writable nodes) unchanged is not extended, because h+o then behaves like (h without its last step)+o, a shorter history that was run; state outside that canonical state (sequence numbers, nonces, the monotone item counter) is assumed not to influence crashes or hangs", "every connection starts with an activated session owning one subscription (1 h interval) and one monitored item, so own/foreign ids exist from the first step", "sessions that were sent a Publish request are not reused by later histories (their publish queue may hold requests), so every history starts with empty publish queues", "an unanswered sentinel counts as 'busy, not judged' only while some server goroutine is running or runnable; if all of them are parked or blocked (channel send, lock) the canary decides", "the server is reused between histories after deleting all subscriptions and items and re-creating the two nodes histories can tamper with; it is replaced every 1500 histories and after every death or hang")
 	r.Finish()
 }
 
